@@ -1591,12 +1591,14 @@ Proof.
         * eapply (Jstd_update _ _ _ _ _ _ lo hi); [exact S1'|exact Hp3|exact U4|unfold lo, hi; lia|lia].
     - split; [exact HJ1|exact UN]. }
   (* the reduction is over: back to the fork of reduce *)
-  simpl in HGB. destruct HGB as (s' & St & Ch & Le & (e & vs4 & n4 & g4 & St4 & Ch4 & Le4 & HE4 & ((E4 & Hn4 & Hl4 & HP4) & Hg4))).
+  destruct HGB as (s' & St & Ch & Le & HT). simpl in Ch, Le.
+  unfold f0. try rewrite Eds. fold updf. cbv beta iota.
+  destruct (Tend_inv _ _ _ _ _ _ HT) as [EF|(e & vs4 & n4 & g4 & St4 & Ch4 & Le4 & HE4 & ((E4 & Hn4 & Hl4 & HP4) & Hg4))].
+  { destruct (reduce_fold updf ws s0) as [acc|ex]; [destruct sx as [ex|]; [|discriminate EF]|]; inversion EF; subst; cbn [fst snd]; apply G_fuel. }
   simpl in St4, Ch4. cbn [g_sc g_ce cB] in HE4.
   assert (Ch' : chg (fun i => (i = lo \/ base + n1 <= i < hi) \/ o' <= i) vs1 vs4) by (eapply chg_trans; eauto).
   assert (Le' : cle n' z n4 g4) by (eapply cle_trans; eauto).
   assert (HJ4 : Jstd sc ce rho n0 lo o P vs4 n4 g4 /\ True) by (split; [split|]; auto).
-  unfold f0. try rewrite Eds. fold updf. cbv beta iota.
   destruct (reduce_fold updf ws s0) as [acc|ex] eqn:Erf.
   - destruct sx as [ex|]; simpl in HE4; cbn [fst snd].
     + destruct (encR_some _ _ _ _ _ HE4) as (y & ->).
